@@ -1,6 +1,1057 @@
+import Mathlib.Tactic.Linarith
+import Mathlib.Tactic.Ring
+import Mathlib.Data.Rat.Defs
+import Mathlib.Data.List.Basic
+import Mathlib.Data.List.Nodup
+import Mathlib.Data.String.Basic
+import Mathlib.Order.Basic
 import PgFdr.Model.C12
 
 /-! Helper lemmas for C12. -/
 namespace PgFdr.C12
+open PgFdr.C17 (PepVal)
+
+/-! ### `lastIdx` (dict lookup) -/
+
+theorem lastIdx_some {α : Type} (p : α → Bool) : ∀ (l : List α) (i : Nat),
+    lastIdx p l = some i → ∃ a, l[i]? = some a ∧ p a = true := by
+  intro l
+  induction l with
+  | nil => intro i h; simp [lastIdx] at h
+  | cons a t ih =>
+    intro i h
+    simp only [lastIdx] at h
+    cases ht : lastIdx p t with
+    | some j =>
+      rw [ht] at h
+      obtain ⟨b, hb, hp⟩ := ih j ht
+      have : i = j + 1 := by simpa using h.symm
+      subst this
+      exact ⟨b, by simpa using hb, hp⟩
+    | none =>
+      rw [ht] at h
+      by_cases hpa : p a = true
+      · simp [hpa] at h; subst h; exact ⟨a, by simp, hpa⟩
+      · simp [hpa] at h
+
+theorem lastIdx_none {α : Type} (p : α → Bool) : ∀ (l : List α),
+    lastIdx p l = none ↔ ∀ a ∈ l, p a = false := by
+  intro l
+  induction l with
+  | nil => simp [lastIdx]
+  | cons a t ih =>
+    simp only [lastIdx]
+    cases ht : lastIdx p t with
+    | some j =>
+      simp only [reduceCtorEq, false_iff]
+      intro hall
+      have : lastIdx p t = none := ih.mpr (fun b hb => hall b (List.mem_cons_of_mem _ hb))
+      rw [ht] at this; cases this
+    | none =>
+      have hall := ih.mp ht
+      by_cases hpa : p a = true
+      · simp [hpa]
+      · have hpa' : p a = false := by simpa using hpa
+        simp only [hpa', Bool.false_eq_true, if_false, true_iff]
+        intro b hb
+        rcases List.mem_cons.mp hb with rfl | hb
+        · exact hpa'
+        · exact hall b hb
+
+/-- the last satisfying position is THE satisfying position when there is only one -/
+theorem lastIdx_of_unique {α : Type} (p : α → Bool) : ∀ (l : List α) (i : Nat) (a : α),
+    l[i]? = some a → p a = true → (∀ j b, l[j]? = some b → p b = true → j = i) →
+    lastIdx p l = some i := by
+  intro l i a hi hpa huniq
+  cases h : lastIdx p l with
+  | none =>
+    have := (lastIdx_none p l).mp h a (List.mem_of_getElem? hi)
+    rw [this] at hpa; cases hpa
+  | some j =>
+    obtain ⟨b, hb, hpb⟩ := lastIdx_some p l j h
+    rw [huniq j b hb hpb]
+
+theorem lastIdx_lt {α : Type} (p : α → Bool) (l : List α) (i : Nat) (h : lastIdx p l = some i) :
+    i < l.length := by
+  obtain ⟨a, ha, _⟩ := lastIdx_some p l i h
+  by_contra hn
+  rw [List.getElem?_eq_none (by omega)] at ha
+  cases ha
+
+/-! ### sets as duplicate-free lists -/
+
+theorem setAdd_of_mem {α : Type} [BEq α] [LawfulBEq α] (s : List α) (x : α) (h : x ∈ s) :
+    setAdd s x = s := by
+  simp [setAdd, h]
+
+theorem setAdd_of_not_mem {α : Type} [BEq α] [LawfulBEq α] (s : List α) (x : α) (h : x ∉ s) :
+    setAdd s x = s ++ [x] := by
+  simp [setAdd, h]
+
+theorem mem_setAdd {α : Type} [BEq α] [LawfulBEq α] (s : List α) (x y : α) :
+    y ∈ setAdd s x ↔ y ∈ s ∨ y = x := by
+  by_cases h : x ∈ s
+  · rw [setAdd_of_mem s x h]
+    constructor
+    · exact Or.inl
+    · rintro (h1 | rfl)
+      · exact h1
+      · exact h
+  · rw [setAdd_of_not_mem s x h]; simp
+
+theorem nodup_setAdd {α : Type} [BEq α] [LawfulBEq α] (s : List α) (x : α) (hs : s.Nodup) :
+    (setAdd s x).Nodup := by
+  by_cases h : x ∈ s
+  · rw [setAdd_of_mem s x h]; exact hs
+  · rw [setAdd_of_not_mem s x h]
+    rw [List.nodup_append]
+    refine ⟨hs, by simp, ?_⟩
+    intro a ha b hb
+    simp at hb
+    subst hb
+    intro hab; subst hab; exact h ha
+
+theorem foldl_setAdd {α β : Type} [BEq β] [LawfulBEq β] (f : α → β) : ∀ (l : List α) (s : List β),
+    s.Nodup →
+    (l.foldl (fun s a => setAdd s (f a)) s).Nodup ∧
+    ∀ y, y ∈ l.foldl (fun s a => setAdd s (f a)) s ↔ y ∈ s ∨ ∃ a ∈ l, f a = y := by
+  intro l
+  induction l with
+  | nil => intro s hs; simp [hs]
+  | cons a t ih =>
+    intro s hs
+    simp only [List.foldl_cons]
+    obtain ⟨h1, h2⟩ := ih (setAdd s (f a)) (nodup_setAdd s (f a) hs)
+    refine ⟨h1, ?_⟩
+    intro y
+    rw [h2 y, mem_setAdd]
+    constructor
+    · rintro ((h | h) | ⟨b, hb, hy⟩)
+      · exact Or.inl h
+      · exact Or.inr ⟨a, by simp, h.symm⟩
+      · exact Or.inr ⟨b, List.mem_cons_of_mem _ hb, hy⟩
+    · rintro (h | ⟨b, hb, hy⟩)
+      · exact Or.inl (Or.inl h)
+      · rcases List.mem_cons.mp hb with rfl | hb
+        · exact Or.inl (Or.inr hy.symm)
+        · exact Or.inr ⟨b, hb, hy⟩
+
+theorem eq_singleton_of_nodup {α : Type} (l : List α) (x : α) (hn : l.Nodup) (hne : l ≠ [])
+    (hall : ∀ y ∈ l, y = x) : l = [x] := by
+  match l, hn, hne, hall with
+  | [a], _, _, hall => rw [hall a (by simp)]
+  | a :: b :: t, hn, _, hall =>
+    exfalso
+    have ha := hall a (by simp)
+    have hb := hall b (by simp)
+    rw [List.nodup_cons] at hn
+    exact hn.1 (by rw [ha, ← hb]; simp)
+
+/-- the index set of a protein list is `{x}` iff the list is non-empty and every protein maps to `x` -/
+theorem idxSet_eq_singleton (groups : List (List String)) (ps : List String) (x : Option Nat) :
+    idxSet groups ps = [x] ↔ ps ≠ [] ∧ ∀ p ∈ ps, idxOf groups p = x := by
+  unfold idxSet
+  obtain ⟨hnd, hmem⟩ := foldl_setAdd (idxOf groups) ps [] List.nodup_nil
+  constructor
+  · intro h
+    rw [h] at hmem
+    constructor
+    · intro hps; subst hps; simp at h
+    · intro p hp
+      have := (hmem (idxOf groups p)).mpr (Or.inr ⟨p, hp, rfl⟩)
+      simpa using this
+  · rintro ⟨hne, hall⟩
+    apply eq_singleton_of_nodup _ _ hnd
+    · obtain ⟨p, hp⟩ := List.exists_mem_of_ne_nil ps hne
+      intro h0
+      have := (hmem (idxOf groups p)).mpr (Or.inr ⟨p, hp, rfl⟩)
+      rw [h0] at this; cases this
+    · intro y hy
+      rcases (hmem y).mp hy with h | ⟨p, hp, rfl⟩
+      · cases h
+      · exact hall p hp
+
+theorem mem_attachTo (groups : List (List String)) (r : Row) (g : Nat) :
+    g ∈ attachTo groups r ↔ idxSet groups (prots r) = [some g] := by
+  unfold attachTo
+  generalize idxSet groups (prots r) = s
+  simp only
+  match s with
+  | [] => simp [isMissing]
+  | [none] => simp [isMissing]
+  | [some g'] =>
+    simp [isMissing, isShared]
+    exact eq_comm
+  | a :: b :: t =>
+    have h1 : isMissing (a :: b :: t) = false := by simp [isMissing]
+    have h2 : isShared (a :: b :: t) = true := by simp [isShared]
+    simp [h1, h2]
+
+
+/-! ### attachment -/
+
+theorem mem_parsed (rows : List Row) (r : Row) : r ∈ parsed rows ↔ r ∈ rows ∧ prots r ≠ [] := by
+  unfold parsed
+  rw [List.mem_filter]
+  simp
+
+theorem mem_attached (rows : List Row) (groups : List (List String)) (g : Nat) (r : Row) :
+    r ∈ attached rows groups g ↔ r ∈ parsed rows ∧ idxSet groups (prots r) = [some g] := by
+  unfold attached
+  rw [List.mem_filter, List.contains_iff_mem, mem_attachTo]
+
+/-! ### accumulating loops over flat lists -/
+
+theorem length_addAt (l : List Rat) (i : Nat) (x : Rat) : (addAt l i x).length = l.length := by
+  simp [addAt]
+
+theorem getD_addAt (l : List Rat) (i : Nat) (x : Rat) (j : Nat) :
+    (addAt l i x).getD j 0 = l.getD j 0 + (if i = j ∧ j < l.length then x else 0) := by
+  unfold addAt
+  rw [List.getD_eq_getElem?_getD, List.getD_eq_getElem?_getD, List.getElem?_modify]
+  by_cases hj : j < l.length
+  · rw [List.getElem?_eq_getElem hj]
+    by_cases hij : i = j
+    · simp [hij, hj]
+    · simp [hij]
+  · rw [List.getElem?_eq_none (by omega)]
+    simp [hj]
+
+theorem length_addFrom : ∀ (vs : List Rat) (l : List Rat) (i : Nat), (addFrom l i vs).length = l.length := by
+  intro vs
+  induction vs with
+  | nil => intro l i; rfl
+  | cons v vs ih => intro l i; simp [addFrom, ih, length_addAt]
+
+theorem getD_addFrom : ∀ (vs : List Rat) (l : List Rat) (i j : Nat),
+    (addFrom l i vs).getD j 0 =
+      l.getD j 0 + (if i ≤ j ∧ j < l.length then vs.getD (j - i) 0 else 0) := by
+  intro vs
+  induction vs with
+  | nil => intro l i j; simp [addFrom]
+  | cons v vs ih =>
+    intro l i j
+    simp only [addFrom]
+    rw [ih, getD_addAt, length_addAt]
+    by_cases hj : j < l.length
+    · by_cases hij : i = j
+      · subst hij; simp [hj]
+      · by_cases hlt : i < j
+        · have h1 : i + 1 ≤ j := hlt
+          have h2 : i ≤ j := by omega
+          have h3 : j - i = (j - (i + 1)) + 1 := by omega
+          simp [hij, hj, h1, h2, h3]
+        · have h1 : ¬ (i + 1 ≤ j) := by omega
+          have h2 : ¬ (i ≤ j) := by omega
+          simp [hij, h1, h2]
+    · simp [hj]
+
+/-- what one precursor adds to slot `j` of a flat intensity list of length `n` -/
+def contrib (exps : List String) (S : Nat) (c : Rat) (n : Nat) (q : Row) (j : Nat) : Rat :=
+  match q.intensity with
+  | none => 0
+  | some x =>
+    if used c q then
+      match expIdx exps q.experiment with
+      | some e => (if e * (1 + S) = j ∧ j < n then x else 0) +
+          (if e * (1 + S) + 1 ≤ j ∧ j < n then q.silac.getD (j - (e * (1 + S) + 1)) 0 else 0)
+      | none => 0
+    else 0
+
+theorem length_intensStep (exps : List String) (S : Nat) (c : Rat) (acc : List Rat) (q : Row) :
+    (intensStep exps S c acc q).length = acc.length := by
+  unfold intensStep
+  cases q.intensity with
+  | none => rfl
+  | some x =>
+    simp only
+    split
+    · split
+      · simp [length_addFrom, length_addAt]
+      · rfl
+    · rfl
+
+theorem getD_intensStep (exps : List String) (S : Nat) (c : Rat) (acc : List Rat) (q : Row) (j : Nat) :
+    (intensStep exps S c acc q).getD j 0 = acc.getD j 0 + contrib exps S c acc.length q j := by
+  unfold intensStep contrib
+  cases q.intensity with
+  | none => simp
+  | some x =>
+    simp only
+    by_cases hu : used c q = true
+    · simp only [hu, if_true]
+      cases expIdx exps q.experiment with
+      | none => simp
+      | some e =>
+        simp only
+        rw [getD_addFrom, getD_addAt, length_addAt]
+        ring
+    · simp [hu]
+
+theorem foldl_intensStep (exps : List String) (S : Nat) (c : Rat) (j : Nat) :
+    ∀ (qs : List Row) (acc : List Rat),
+      (qs.foldl (intensStep exps S c) acc).length = acc.length ∧
+      (qs.foldl (intensStep exps S c) acc).getD j 0 =
+        acc.getD j 0 + (qs.map (fun q => contrib exps S c acc.length q j)).sum := by
+  intro qs
+  induction qs with
+  | nil => intro acc; simp
+  | cons q qs ih =>
+    intro acc
+    simp only [List.foldl_cons, List.map_cons, List.sum_cons]
+    obtain ⟨h1, h2⟩ := ih (intensStep exps S c acc q)
+    rw [h1, h2, length_intensStep, getD_intensStep]
+    exact ⟨rfl, by ring⟩
+
+theorem sum_map_ite {α : Type} (l : List α) (P : α → Bool) (f : α → Rat) :
+    (l.map (fun a => if P a then f a else 0)).sum = ((l.filter P).map f).sum := by
+  induction l with
+  | nil => rfl
+  | cons a l ih =>
+    by_cases h : P a = true
+    · simp [h, ih]
+    · simp [h, ih]
+
+/-- channel `k` of a precursor: 0 = `Intensity`, `k+1` = SILAC channel `k` -/
+def chan : Nat → Row → Rat
+  | 0, q => q.intensity.getD 0
+  | k + 1, q => q.silac.getD k 0
+
+/-- the precursors `_get_intensities` adds into the slots of experiment position `e` -/
+def counted (exps : List String) (c : Rat) (e : Nat) (q : Row) : Bool :=
+  q.intensity.isSome && used c q && (expIdx exps q.experiment == some e)
+
+theorem flat_index (m e e' k k' : Nat) (hk : k < m) (hk' : k' < m) (h : e' * m + k' = e * m + k) :
+    e' = e ∧ k' = k := by
+  have h1 : (e' * m + k') / m = e' := by
+    rw [Nat.add_comm, Nat.add_mul_div_right _ _ (by omega), Nat.div_eq_of_lt hk']; simp
+  have h2 : (e * m + k) / m = e := by
+    rw [Nat.add_comm, Nat.add_mul_div_right _ _ (by omega), Nat.div_eq_of_lt hk]; simp
+  have he : e' = e := by rw [← h1, ← h2, h]
+  subst he
+  exact ⟨rfl, by omega⟩
+
+theorem contrib_slot (exps : List String) (S : Nat) (c : Rat) (q : Row) (e k : Nat)
+    (he : e < exps.length) (hk : k ≤ S) (hs : q.silac.length ≤ S) :
+    contrib exps S c (exps.length * (1 + S)) q (e * (1 + S) + k) =
+      if counted exps c e q then chan k q else 0 := by
+  have hj : e * (1 + S) + k < exps.length * (1 + S) := by
+    have : (e + 1) * (1 + S) ≤ exps.length * (1 + S) := Nat.mul_le_mul_right _ he
+    rw [Nat.add_mul] at this
+    omega
+  unfold contrib counted
+  cases hq : q.intensity with
+  | none => simp
+  | some x =>
+    simp only [Option.isSome_some, Bool.true_and]
+    by_cases hu : used c q = true
+    · simp only [hu, if_true, Bool.true_and]
+      cases hx : expIdx exps q.experiment with
+      | none => simp
+      | some e' =>
+        simp only [hj, and_true]
+        by_cases hee : e' = e
+        · subst hee
+          cases k with
+          | zero => simp [chan, hq]
+          | succ k =>
+            have h1 : ¬ (e' * (1 + S) = e' * (1 + S) + (k + 1)) := by omega
+            have h2 : e' * (1 + S) + 1 ≤ e' * (1 + S) + (k + 1) := by omega
+            have h3 : e' * (1 + S) + (k + 1) - (e' * (1 + S) + 1) = k := by omega
+            simp [h2, h3, chan]
+        · have hne : (some e' == some e) = false := by simpa using hee
+          simp only [hne, Bool.false_eq_true, if_false]
+          have h1 : ¬ (e' * (1 + S) = e * (1 + S) + k) := by
+            intro h
+            have := flat_index (1 + S) e e' k 0 (by omega) (by omega) (by omega)
+            exact hee this.1
+          simp only [h1, if_false, zero_add]
+          by_cases hlt : e' < e
+          · have h2 : (e' + 1) * (1 + S) ≤ e * (1 + S) := Nat.mul_le_mul_right _ hlt
+            rw [Nat.add_mul] at h2
+            have h3 : q.silac.length ≤ e * (1 + S) + k - (e' * (1 + S) + 1) := by omega
+            rw [List.getD_eq_getElem?_getD, List.getElem?_eq_none h3]
+            simp
+          · have h2 : (e + 1) * (1 + S) ≤ e' * (1 + S) := Nat.mul_le_mul_right _ (by omega)
+            rw [Nat.add_mul] at h2
+            have h3 : ¬ (e' * (1 + S) + 1 ≤ e * (1 + S) + k) := by omega
+            simp [h3]
+    · simp [hu]
+
+
+/-! ### `l[::n+1]` -/
+
+theorem strideAux_drop {α : Type} (n : Nat) : ∀ (l : List α) (k : Nat),
+    strideAux n k l = strideAux n 0 (l.drop k) := by
+  intro l
+  induction l with
+  | nil => intro k; simp [strideAux]
+  | cons a t ih =>
+    intro k
+    cases k with
+    | zero => simp
+    | succ k => simp only [strideAux, List.drop_succ_cons]; exact ih k
+
+theorem stride_cons {α : Type} (n : Nat) (a : α) (t : List α) :
+    stride n (a :: t) = a :: stride n (t.drop n) := by
+  unfold stride
+  simp only [strideAux]
+  rw [strideAux_drop]
+
+theorem stride_eq (n : Nat) : ∀ (E : Nat) (l : List Rat), l.length = E * (n + 1) →
+    stride n l = (List.range E).map (fun e => l.getD (e * (n + 1)) 0) := by
+  intro E
+  induction E with
+  | zero =>
+    intro l hl
+    have : l = [] := List.eq_nil_of_length_eq_zero (by simpa using hl)
+    subst this; rfl
+  | succ E ih =>
+    intro l hl
+    match l, hl with
+    | [], hl => simp [Nat.add_mul] at hl
+    | a :: t, hl =>
+      rw [stride_cons, List.range_succ_eq_map, List.map_cons, List.map_map]
+      have hlen : (t.drop n).length = E * (n + 1) := by
+        rw [List.length_drop]
+        simp only [List.length_cons, Nat.add_mul] at hl
+        omega
+      rw [ih _ hlen]
+      congr 1
+      · simp
+      · apply List.map_congr_left
+        intro e _
+        simp only [Function.comp, List.getD_eq_getElem?_getD, List.getElem?_drop]
+        have : (e + 1) * (n + 1) = (n + e * (n + 1)) + 1 := by rw [Nat.add_mul]; omega
+        rw [this, List.getElem?_cons_succ]
+
+
+/-! ### identified-precursor filter -/
+
+theorem mem_retain (c : Rat) (quants : List Row) (q : Row) :
+    q ∈ retain c quants ↔ q ∈ quants ∧
+      ∃ q' ∈ quants, q'.peptide = q.peptide ∧ q'.charge = q.charge ∧ leCut q'.pep c = true := by
+  unfold retain
+  simp only [List.mem_filter, List.contains_iff_mem, List.mem_filterMap]
+  constructor
+  · rintro ⟨h1, q', hq', h2⟩
+    refine ⟨h1, q', hq', ?_⟩
+    by_cases hl : leCut q'.pep c = true
+    · simp only [hl, if_true, Option.some.injEq, Prod.mk.injEq] at h2
+      exact ⟨h2.1, h2.2, hl⟩
+    · simp [hl] at h2
+  · rintro ⟨h1, q', hq', hp, hz, hl⟩
+    exact ⟨h1, q', hq', by simp [hl, hp, hz]⟩
+
+/-! ### unique peptide sets -/
+
+/-- the precursors whose peptide is added to set `j` (0 = combined, `e+1` = experiment position `e`) -/
+def hit (exps : List String) (c : Rat) : Nat → Row → Bool
+  | 0, q => used c q
+  | e + 1, q => used c q && (expIdx exps q.experiment == some e)
+
+theorem length_countsStep (exps : List String) (c : Rat) (acc : List (List String)) (q : Row) :
+    (countsStep exps c acc q).length = acc.length := by
+  unfold countsStep
+  split
+  · simp only
+    split <;> simp
+  · rfl
+
+theorem getElem?_countsStep (exps : List String) (c : Rat) (acc : List (List String)) (q : Row) (j : Nat) :
+    (countsStep exps c acc q)[j]? =
+      (acc[j]?).map (fun s => if hit exps c j q then setAdd s q.peptide else s) := by
+  unfold countsStep
+  by_cases hu : used c q = true
+  · simp only [hu, if_true]
+    cases hx : expIdx exps q.experiment with
+    | none =>
+      simp only
+      rw [List.getElem?_modify]
+      cases j with
+      | zero => cases acc[0]? <;> simp [hit, hu]
+      | succ j => cases acc[j+1]? <;> simp [hit, hu, hx]
+    | some e =>
+      simp only
+      rw [List.getElem?_modify, List.getElem?_modify]
+      cases j with
+      | zero => cases acc[0]? <;> simp [hit, hu]
+      | succ j =>
+        by_cases hej : e = j
+        · subst hej; cases acc[e+1]? <;> simp [hit, hu, hx]
+        · have : (some e == some j) = false := by simpa using hej
+          cases acc[j+1]? <;> simp [hit, hu, hx, hej]
+  · have hu' : used c q = false := by simpa using hu
+    have : hit exps c j q = false := by cases j <;> simp [hit, hu']
+    simp [hu', this]
+
+theorem foldl_countsStep (exps : List String) (c : Rat) (j : Nat) : ∀ (qs : List Row) (acc : List (List String)),
+    (qs.foldl (countsStep exps c) acc)[j]? =
+      (acc[j]?).map (fun s => (qs.filter (hit exps c j)).foldl (fun s q => setAdd s q.peptide) s) := by
+  intro qs
+  induction qs with
+  | nil => intro acc; simp
+  | cons q qs ih =>
+    intro acc
+    simp only [List.foldl_cons]
+    rw [ih, getElem?_countsStep]
+    cases acc[j]? with
+    | none => rfl
+    | some s =>
+      by_cases h : hit exps c j q = true
+      · simp [h]
+      · simp [h]
+
+theorem peptideSets_slot (exps : List String) (c : Rat) (quants : List Row) (j : Nat) (hj : j < exps.length + 1) :
+    ∃ s : List String, (peptideSets exps c quants)[j]? = some s ∧ s.Nodup ∧
+      ∀ y, y ∈ s ↔ ∃ q ∈ quants.filter (hit exps c j), q.peptide = y := by
+  unfold peptideSets
+  rw [foldl_countsStep, List.getElem?_replicate]
+  simp only [hj, if_true, Option.map_some]
+  obtain ⟨h1, h2⟩ := foldl_setAdd (fun q : Row => q.peptide) (quants.filter (hit exps c j)) [] List.nodup_nil
+  refine ⟨_, rfl, h1, ?_⟩
+  intro y
+  rw [h2 y]
+  simp
+
+/-! ### identification type -/
+
+/-- closed form of the slot of `_identification_type_per_experiment` -/
+def idSem (init : String) (ms mb : Bool) : String :=
+  if ms then byMsms else if init == byMsms then byMsms else if mb then byMatching else init
+
+theorem length_idStep (exps : List String) (c : Rat) (acc : List String) (q : Row) :
+    (idStep exps c acc q).length = acc.length := by
+  unfold idStep
+  split
+  · split
+    · simp
+    · split <;> simp
+  · rfl
+
+theorem leCut_of_mbr (p : PepVal) (c : Rat) (h : isMbr p = true) : leCut p c = false := by
+  cases p <;> simp_all [isMbr, leCut]
+
+theorem foldl_idStep (exps : List String) (c : Rat) (e : Nat) : ∀ (qs : List Row) (acc : List String),
+    e < acc.length →
+    (qs.foldl (idStep exps c) acc).getD e "" =
+      idSem (acc.getD e "")
+        (qs.any (fun q => (expIdx exps q.experiment == some e) && leCut q.pep c))
+        (qs.any (fun q => (expIdx exps q.experiment == some e) && isMbr q.pep)) := by
+  intro qs
+  induction qs with
+  | nil => intro acc _; simp [idSem]
+  | cons q qs ih =>
+    intro acc he
+    simp only [List.foldl_cons, List.any_cons]
+    rw [ih _ (by rw [length_idStep]; exact he)]
+    generalize (qs.any fun q => (expIdx exps q.experiment == some e) && leCut q.pep c) = ms
+    generalize (qs.any fun q => (expIdx exps q.experiment == some e) && isMbr q.pep) = mb
+    have hne : (byMatching == byMsms) = false := by decide
+    unfold idStep
+    cases hx : expIdx exps q.experiment with
+    | none => simp
+    | some e' =>
+      simp only
+      by_cases hee : e' = e
+      · subst hee
+        simp only [beq_self_eq_true, Bool.true_and]
+        by_cases hm : isMbr q.pep = true
+        · have hl := leCut_of_mbr q.pep c hm
+          have hset1 : (acc.set e' byMatching).getD e' "" = byMatching := by
+            simp [List.getD_eq_getElem?_getD, he]
+          by_cases ha : (acc.getD e' "" != byMsms) = true
+          · simp only [hm, ha, Bool.and_self, if_true, hl, Bool.false_or, Bool.true_or]
+            rw [hset1]
+            have ha' : acc.getD e' "" ≠ byMsms := by simpa using ha
+            generalize acc.getD e' "" = a0 at ha'
+            have hne2 : byMatching ≠ byMsms := by decide
+            cases ms <;> cases mb <;> simp [idSem, hne2, ha']
+          · simp only [hm, ha, Bool.and_false, hl, Bool.false_eq_true, if_false, Bool.false_or,
+              Bool.true_or]
+            have ha' : acc.getD e' "" = byMsms := by simpa using ha
+            rw [ha']
+            cases ms <;> cases mb <;> simp [idSem]
+        · have hm' : isMbr q.pep = false := by simpa using hm
+          simp only [hm', Bool.false_and, Bool.false_eq_true, if_false, Bool.false_or]
+          by_cases hl : leCut q.pep c = true
+          · simp only [hl, if_true, Bool.true_or]
+            have : (acc.set e' byMsms).getD e' "" = byMsms := by
+              simp [List.getD_eq_getElem?_getD, he]
+            rw [this]
+            cases ms <;> cases mb <;> simp [idSem]
+          · simp [hl]
+      · have hne' : (some e' == some e) = false := by simpa using hee
+        simp only [hne', Bool.false_and, Bool.false_or]
+        have hset : ∀ v, (acc.set e' v).getD e "" = acc.getD e "" := by
+          intro v
+          simp [List.getD_eq_getElem?_getD, hee]
+        split
+        · rw [hset]
+        · split
+          · rw [hset]
+          · rfl
+
+/-! ### evidence ids -/
+
+theorem insertInt_perm (x : Int) : ∀ l : List Int, (insertInt x l).Perm (x :: l) := by
+  intro l
+  induction l with
+  | nil => exact List.Perm.refl _
+  | cons y t ih =>
+    simp only [insertInt]
+    split
+    · exact List.Perm.refl _
+    · exact ((List.Perm.cons y ih).trans (List.Perm.swap x y t))
+
+theorem insertInt_sorted (x : Int) : ∀ l : List Int, l.Pairwise (· ≤ ·) → (insertInt x l).Pairwise (· ≤ ·) := by
+  intro l
+  induction l with
+  | nil => intro _; simp [insertInt]
+  | cons y t ih =>
+    intro h
+    simp only [insertInt]
+    have ⟨hy, ht⟩ := List.pairwise_cons.mp h
+    split
+    · rename_i hxy
+      refine List.pairwise_cons.mpr ⟨?_, h⟩
+      intro z hz
+      rcases List.mem_cons.mp hz with rfl | hz
+      · exact hxy
+      · exact le_trans hxy (hy z hz)
+    · rename_i hxy
+      refine List.pairwise_cons.mpr ⟨?_, ih ht⟩
+      intro z hz
+      rcases List.mem_cons.mp ((insertInt_perm x t).subset hz) with rfl | hz
+      · omega
+      · exact hy z hz
+
+theorem sortInts_perm : ∀ l : List Int, (sortInts l).Perm l := by
+  intro l
+  induction l with
+  | nil => exact List.Perm.refl _
+  | cons x t ih =>
+    simp only [sortInts, List.foldr_cons]
+    exact (insertInt_perm x _).trans (List.Perm.cons x ih)
+
+theorem sortInts_sorted : ∀ l : List Int, (sortInts l).Pairwise (· ≤ ·) := by
+  intro l
+  induction l with
+  | nil => simp [sortInts]
+  | cons x t ih =>
+    simp only [sortInts, List.foldr_cons]
+    exact insertInt_sorted x _ ih
+
+
+/-! ### sums over a partition (nothing lost, nothing counted twice) -/
+
+theorem sum_indicator (n : Nat) (q : Nat → Bool) (v : Rat)
+    (huniq : ∀ i j, q i = true → q j = true → i = j) :
+    ((List.range n).map (fun i => if q i then v else 0)).sum =
+      if (List.range n).any q then v else 0 := by
+  induction n with
+  | zero => simp
+  | succ n ih =>
+    rw [List.range_succ, List.map_append, List.sum_append, ih, List.any_append]
+    simp only [List.map_cons, List.map_nil, List.sum_cons, List.sum_nil, add_zero,
+      List.any_cons, List.any_nil, Bool.or_false]
+    by_cases hq : q n = true
+    · have hnone : (List.range n).any q = false := by
+        rw [List.any_eq_false]
+        intro i hi hqi
+        have := huniq i n hqi hq
+        simp at hi; omega
+      simp [hq, hnone]
+    · have hq' : q n = false := by simpa using hq
+      simp [hq']
+
+theorem sum_map_add_rat {α : Type} (l : List α) (f g : α → Rat) :
+    (l.map (fun a => f a + g a)).sum = (l.map f).sum + (l.map g).sum := by
+  induction l with
+  | nil => simp
+  | cons a l ih => simp only [List.map_cons, List.sum_cons, ih]; ring
+
+/-- summing a per-element quantity over the parts `l.filter (sel i)`, `i < n`, of a list gives the
+    sum over the elements that lie in some part, when no element lies in two parts -/
+theorem sum_partition {α : Type} (sel : Nat → α → Bool)
+    (huniq : ∀ a i j, sel i a = true → sel j a = true → i = j) (f : α → Rat) (n : Nat) :
+    ∀ l : List α,
+      ((List.range n).map (fun i => ((l.filter (sel i)).map f).sum)).sum =
+        ((l.filter (fun a => (List.range n).any (fun i => sel i a))).map f).sum := by
+  intro l
+  induction l with
+  | nil =>
+    have : ∀ m : Nat, (List.replicate m (0 : Rat)).sum = 0 := by
+      intro m; induction m with
+      | zero => rfl
+      | succ m ih => simp [List.replicate_succ, ih]
+    simp [this]
+  | cons a l ih =>
+    have hstep : ∀ i, (((a :: l).filter (sel i)).map f).sum =
+        (if sel i a then f a else 0) + ((l.filter (sel i)).map f).sum := by
+      intro i
+      by_cases hs : sel i a = true
+      · simp [hs]
+      · have hs' : sel i a = false := by simpa using hs
+        simp [hs']
+    have hsum : ((List.range n).map (fun i => (((a :: l).filter (sel i)).map f).sum)).sum =
+        ((List.range n).map (fun i => if sel i a then f a else 0)).sum +
+        ((List.range n).map (fun i => ((l.filter (sel i)).map f).sum)).sum := by
+      rw [← sum_map_add_rat]
+      congr 1
+      apply List.map_congr_left
+      intro i _; exact hstep i
+    rw [hsum, ih, sum_indicator n (fun i => sel i a) (f a) (fun i j hi hj => huniq a i j hi hj)]
+    by_cases hu : (List.range n).any (fun i => sel i a) = true
+    · simp [hu]
+    · have hu' : (List.range n).any (fun i => sel i a) = false := by simpa using hu
+      simp [hu']
+
+/-- dropping parts that contribute nothing does not change the sum -/
+theorem sum_filter_of_zero (l : List Nat) (P : Nat → Bool) (f : Nat → Rat)
+    (h : ∀ i, P i = false → f i = 0) : ((l.filter P).map f).sum = (l.map f).sum := by
+  induction l with
+  | nil => rfl
+  | cons a l ih =>
+    by_cases hp : P a = true
+    · simp [hp, ih]
+    · have hp' : P a = false := by simpa using hp
+      simp [hp', ih, h a hp']
+
+/-! ### the experiment list -/
+
+theorem mem_insertSorted (x y : String) : ∀ l : List String, y ∈ insertSorted x l ↔ y = x ∨ y ∈ l := by
+  intro l
+  induction l with
+  | nil => simp [insertSorted]
+  | cons z t ih =>
+    simp only [insertSorted]
+    split
+    · simp
+    · split
+      · rename_i hxz
+        subst hxz
+        simp
+      · simp only [List.mem_cons, ih]
+        tauto
+
+theorem mem_sortedSet (y : String) : ∀ l : List String, y ∈ sortedSet l ↔ y ∈ l := by
+  intro l
+  induction l with
+  | nil => simp [sortedSet]
+  | cons x t ih =>
+    simp only [sortedSet, List.foldr_cons] at ih ⊢
+    rw [mem_insertSorted, ih]
+    simp
+
+theorem expIdx_of_mem (exps : List String) (e : String) (h : e ∈ exps) :
+    ∃ i, expIdx exps e = some i ∧ i < exps.length := by
+  unfold expIdx
+  cases hx : lastIdx (fun x => x == e) exps with
+  | none =>
+    have := (lastIdx_none _ exps).mp hx e h
+    simp at this
+  | some i => exact ⟨i, rfl, lastIdx_lt _ _ _ hx⟩
+
+theorem expIdx_parsed (rows : List Row) (r : Row) (h : r ∈ parsed rows) :
+    ∃ i, expIdx (experiments rows) r.experiment = some i ∧ i < (experiments rows).length := by
+  apply expIdx_of_mem
+  unfold experiments
+  rw [mem_sortedSet]
+  exact List.mem_map.mpr ⟨r, h, rfl⟩
+
+/-! ### summed intensity of a group -/
+
+theorem length_intensities (exps : List String) (S : Nat) (c : Rat) (quants : List Row) :
+    (intensities exps S c quants).length = exps.length * (1 + S) := by
+  unfold intensities
+  rw [(foldl_intensStep exps S c 0 quants _).1]
+  simp
+
+theorem intensities_slot (exps : List String) (S : Nat) (c : Rat) (quants : List Row) (e k : Nat)
+    (he : e < exps.length) (hk : k ≤ S) (hs : ∀ q ∈ quants, q.silac.length ≤ S) :
+    (intensities exps S c quants).getD (e * (1 + S) + k) 0 =
+      ((quants.filter (counted exps c e)).map (chan k)).sum := by
+  unfold intensities
+  rw [(foldl_intensStep exps S c (e * (1 + S) + k) quants _).2, ← sum_map_ite]
+  have h0 : (List.replicate (exps.length * (1 + S)) (0 : Rat)).getD (e * (1 + S) + k) 0 = 0 := by
+    rw [List.getD_eq_getElem?_getD, List.getElem?_replicate]
+    split <;> rfl
+  rw [h0, zero_add]
+  congr 1
+  apply List.map_congr_left
+  intro q hq
+  rw [List.length_replicate]
+  exact contrib_slot exps S c q e k he hk (hs q hq)
+
+theorem counted_unique (exps : List String) (c : Rat) (q : Row) (i j : Nat)
+    (hi : counted exps c i q = true) (hj : counted exps c j q = true) : i = j := by
+  unfold counted at hi hj
+  simp only [Bool.and_eq_true, beq_iff_eq] at hi hj
+  have := hi.2.symm.trans hj.2
+  simpa using this
+
+/-- the total intensity of a group is the sum over its used precursors with an intensity -/
+theorem totalOf_intensities (exps : List String) (S : Nat) (c : Rat) (quants : List Row)
+    (hs : ∀ q ∈ quants, q.silac.length ≤ S)
+    (hexp : ∀ q ∈ quants, ∃ i, expIdx exps q.experiment = some i ∧ i < exps.length) :
+    totalOf S (intensities exps S c quants) =
+      ((quants.filter (fun q => q.intensity.isSome && used c q)).map (chan 0)).sum := by
+  unfold totalOf
+  have hlen : (intensities exps S c quants).length = exps.length * (S + 1) := by
+    rw [length_intensities, Nat.add_comm]
+  rw [stride_eq S exps.length _ hlen]
+  have h1 : (List.range exps.length).map (fun e => (intensities exps S c quants).getD (e * (S + 1)) 0) =
+      (List.range exps.length).map (fun e => ((quants.filter (counted exps c e)).map (chan 0)).sum) := by
+    apply List.map_congr_left
+    intro e he
+    have he' : e < exps.length := by simpa using he
+    have := intensities_slot exps S c quants e 0 he' (Nat.zero_le _) hs
+    rw [Nat.add_zero, Nat.add_comm 1 S] at this
+    exact this
+  rw [h1, sum_partition (fun e q => counted exps c e q) (fun q i j => counted_unique exps c q i j)]
+  congr 1
+  apply congrArg
+  apply List.filter_congr
+  intro q hq
+  obtain ⟨i, hi, hlt⟩ := hexp q hq
+  by_cases hb : (q.intensity.isSome && used c q) = true
+  · rw [hb]
+    rw [List.any_eq_true]
+    exact ⟨i, by simpa using hlt, by simp only [counted, hb, hi]; simp⟩
+  · have hb' : (q.intensity.isSome && used c q) = false := by simpa using hb
+    rw [hb', List.any_eq_false]
+    intro e _
+    simp [counted, hb']
+
+
+/-! ### conservation over all groups -/
+
+/-- some PSM of the same peptide and charge in `quants` passes the cutoff -/
+def identifiedIn (c : Rat) (quants : List Row) (r : Row) : Bool :=
+  quants.any (fun q => q.peptide == r.peptide && q.charge == r.charge && leCut q.pep c)
+
+theorem retain_eq_filter (c : Rat) (quants : List Row) :
+    retain c quants = quants.filter (identifiedIn c quants) := by
+  unfold retain
+  apply List.filter_congr
+  intro q _
+  rw [Bool.eq_iff_iff]
+  simp only [List.contains_iff_mem, List.mem_filterMap, identifiedIn, List.any_eq_true,
+    Bool.and_eq_true, beq_iff_eq]
+  constructor
+  · rintro ⟨q', hq', h⟩
+    by_cases hl : leCut q'.pep c = true
+    · simp only [hl, if_true, Option.some.injEq, Prod.mk.injEq] at h
+      exact ⟨q', hq', ⟨h.1, h.2⟩, hl⟩
+    · simp [hl] at h
+  · rintro ⟨q', hq', ⟨hp, hz⟩, hl⟩
+    exact ⟨q', hq', by simp [hl, hp, hz]⟩
+
+/-- evidence row `r` enters the summed intensity of reported group `g`: it is attached to `g`,
+    a PSM of its peptide and charge in `g` passes the cutoff, it carries an intensity and is itself
+    a match-between-runs row or within the cutoff -/
+def entersGroup (rows : List Row) (groups : List (List String)) (c : Rat) (g : Nat) (r : Row) : Bool :=
+  ((attachTo groups r).contains g && identifiedIn c (attached rows groups g) r) &&
+    (r.intensity.isSome && used c r)
+
+/-- evidence row `r` enters the summed intensity of some reported group -/
+def rowCounted (rows : List Row) (groups : List (List String)) (c : Rat) (r : Row) : Bool :=
+  (List.range groups.length).any (fun g => entersGroup rows groups c g r)
+
+theorem entersGroup_unique (rows : List Row) (groups : List (List String)) (c : Rat) (r : Row) (i j : Nat)
+    (hi : entersGroup rows groups c i r = true) (hj : entersGroup rows groups c j r = true) : i = j := by
+  unfold entersGroup at hi hj
+  simp only [Bool.and_eq_true, List.contains_iff_mem] at hi hj
+  have h1 := (mem_attachTo groups r i).mp hi.1.1
+  have h2 := (mem_attachTo groups r j).mp hj.1.1
+  rw [h1] at h2
+  simpa using h2
+
+theorem group_total (S : Nat) (rows : List Row) (groups : List (List String)) (c : Rat) (g : Nat)
+    (hS : ∀ r ∈ parsed rows, r.silac.length ≤ S) :
+    totalOf S (intensities (experiments rows) S c (retain c (attached rows groups g))) =
+      (((parsed rows).filter (entersGroup rows groups c g)).map (chan 0)).sum := by
+  have hsub : ∀ q ∈ retain c (attached rows groups g), q ∈ parsed rows := by
+    intro q hq
+    exact ((mem_attached rows groups g q).mp ((mem_retain c _ q).mp hq).1).1
+  rw [totalOf_intensities _ S c _ (fun q hq => hS q (hsub q hq))
+    (fun q hq => expIdx_parsed rows q (hsub q hq))]
+  rw [retain_eq_filter]
+  conv_lhs => rw [attached]
+  rw [List.filter_filter, List.filter_filter]
+  congr 2
+  apply List.filter_congr
+  intro r _
+  simp only [entersGroup, attached, Bool.and_assoc, Bool.and_comm, Bool.and_left_comm]
+
+theorem quantifyWith_totals (S : Nat) (rows : List Row) (groups : List (List String)) (level : Rat)
+    (ibaq : List (String × Nat)) :
+    (quantifyWith S rows groups level ibaq).groups.map (·.total) =
+      (keptIdx rows groups).map (fun g => totalOf S (intensities (experiments rows) S
+        (cutoffOf rows groups level) (retain (cutoffOf rows groups level) (attached rows groups g)))) := by
+  simp [quantifyWith, groupOut, Function.comp_def]
+
+
+/-! ### TMT reporter sums -/
+
+theorem length_vecAdd (a b : List Rat) (h : a.length = b.length) : (vecAdd a b).length = a.length := by
+  simp [vecAdd, h]
+
+theorem getD_vecAdd (a b : List Rat) (k : Nat) (h : a.length = b.length) :
+    (vecAdd a b).getD k 0 = a.getD k 0 + b.getD k 0 := by
+  unfold vecAdd
+  simp only [List.getD_eq_getElem?_getD, List.getElem?_zipWith]
+  by_cases hk : k < a.length
+  · rw [List.getElem?_eq_getElem hk, List.getElem?_eq_getElem (h ▸ hk)]
+    simp
+  · rw [List.getElem?_eq_none (by omega), List.getElem?_eq_none (by omega)]
+    simp
+
+theorem foldl_tmtStep (exps : List String) (c : Rat) (n e k : Nat) : ∀ (qs : List Row) (acc : List (List Rat)),
+    (∀ v ∈ acc, v.length = n) → (∀ q ∈ qs, q.tmt.length = n) → e < acc.length →
+    (qs.foldl (tmtStep exps c) acc).length = acc.length ∧
+    (∀ v ∈ qs.foldl (tmtStep exps c) acc, v.length = n) ∧
+    ((qs.foldl (tmtStep exps c) acc).getD e []).getD k 0 =
+      (acc.getD e []).getD k 0 +
+        (qs.map (fun q => if used c q && (expIdx exps q.experiment == some e) then q.tmt.getD k 0 else 0)).sum := by
+  intro qs
+  induction qs with
+  | nil => intro acc hacc _ _; exact ⟨rfl, hacc, by simp⟩
+  | cons q qs ih =>
+    intro acc hacc hq he
+    simp only [List.foldl_cons, List.map_cons, List.sum_cons]
+    have hqn : q.tmt.length = n := hq q (by simp)
+    have hstep_len : (tmtStep exps c acc q).length = acc.length := by
+      unfold tmtStep
+      split
+      · split <;> simp
+      · rfl
+    have hstep_rows : ∀ v ∈ tmtStep exps c acc q, v.length = n := by
+      intro v hv
+      unfold tmtStep at hv
+      split at hv
+      · split at hv
+        · rename_i e' _
+          obtain ⟨i, hi⟩ := List.getElem?_of_mem hv
+          rw [List.getElem?_modify] at hi
+          cases hai : acc[i]? with
+          | none => rw [hai] at hi; simp at hi
+          | some a =>
+            rw [hai] at hi
+            have ha : a.length = n := hacc a (List.mem_of_getElem? hai)
+            by_cases hei : e' = i
+            · simp only [hei, if_true, Option.map_eq_map, Option.map_some, Option.some.injEq] at hi
+              rw [← hi, length_vecAdd _ _ (by rw [ha, hqn]), ha]
+            · simp only [hei, if_false, Option.map_eq_map, Option.map_some, Option.some.injEq] at hi
+              rw [← hi, ha]
+        · exact hacc v hv
+      · exact hacc v hv
+    have hstep_val : ((tmtStep exps c acc q).getD e []).getD k 0 =
+        (acc.getD e []).getD k 0 +
+          (if used c q && (expIdx exps q.experiment == some e) then q.tmt.getD k 0 else 0) := by
+      unfold tmtStep
+      by_cases hu : used c q = true
+      · simp only [hu, if_true, Bool.true_and]
+        cases hx : expIdx exps q.experiment with
+        | none => simp
+        | some e' =>
+          simp only [List.getD_eq_getElem?_getD, List.getElem?_modify]
+          rw [List.getElem?_eq_getElem he]
+          have hae : (acc[e]).length = n := hacc _ (List.getElem_mem he)
+          by_cases hee : e' = e
+          · subst hee
+            simp only [if_true, Option.getD_some, beq_self_eq_true]
+            have := getD_vecAdd acc[e'] q.tmt k (by rw [hae, hqn])
+            simpa [List.getD_eq_getElem?_getD] using this
+          · have hne : (some e' == some e) = false := by simpa using hee
+            simp [hee, hne]
+      · have hu' : used c q = false := by simpa using hu
+        simp [hu']
+    obtain ⟨h1, h2, h3⟩ := ih (tmtStep exps c acc q) hstep_rows
+      (fun q' hq' => hq q' (List.mem_cons_of_mem _ hq')) (by rw [hstep_len]; exact he)
+    refine ⟨by rw [h1, hstep_len], h2, ?_⟩
+    rw [h3, hstep_val]
+    ring
+
+theorem getD_flatten (n : Nat) : ∀ (vs : List (List Rat)) (e k : Nat),
+    (∀ v ∈ vs, v.length = n) → e < vs.length → k < n →
+    vs.flatten.getD (e * n + k) 0 = (vs.getD e []).getD k 0 := by
+  intro vs
+  induction vs with
+  | nil => intro e k _ he _; simp at he
+  | cons v t ih =>
+    intro e k hall he hk
+    have hv : v.length = n := hall v (by simp)
+    cases e with
+    | zero =>
+      simp only [List.flatten_cons, Nat.zero_mul, Nat.zero_add, List.getD_eq_getElem?_getD,
+        List.getElem?_cons_zero, Option.getD_some]
+      rw [List.getElem?_append_left (by omega)]
+    | succ e =>
+      simp only [List.flatten_cons, List.getD_eq_getElem?_getD, List.getElem?_cons_succ]
+      have hidx : (e + 1) * n + k = v.length + (e * n + k) := by rw [hv, Nat.add_mul]; omega
+      rw [hidx, List.getElem?_append_right (by omega), Nat.add_sub_cancel_left]
+      have := ih e k (fun w hw => hall w (List.mem_cons_of_mem _ hw)) (by simpa using he) hk
+      simpa [List.getD_eq_getElem?_getD] using this
+
+/-! ### the experiment list is strictly increasing -/
+
+theorem insertSorted_sorted (x : String) : ∀ l : List String,
+    l.Pairwise (· < ·) → (insertSorted x l).Pairwise (· < ·) := by
+  intro l
+  induction l with
+  | nil => intro _; simp [insertSorted]
+  | cons y t ih =>
+    intro h
+    have ⟨hy, ht⟩ := List.pairwise_cons.mp h
+    simp only [insertSorted]
+    split
+    · rename_i hxy
+      refine List.pairwise_cons.mpr ⟨?_, h⟩
+      intro z hz
+      rcases List.mem_cons.mp hz with rfl | hz
+      · exact hxy
+      · exact lt_trans hxy (hy z hz)
+    · split
+      · exact h
+      · rename_i hxy hne
+        have hyx : y < x := lt_of_le_of_ne (not_lt.mp hxy) (Ne.symm hne)
+        refine List.pairwise_cons.mpr ⟨?_, ih ht⟩
+        intro z hz
+        rcases (mem_insertSorted x z t).mp hz with rfl | hz
+        · exact hyx
+        · exact hy z hz
+
+theorem sortedSet_sorted : ∀ l : List String, (sortedSet l).Pairwise (· < ·) := by
+  intro l
+  induction l with
+  | nil => simp [sortedSet]
+  | cons x t ih =>
+    simp only [sortedSet, List.foldr_cons] at ih ⊢
+    exact insertSorted_sorted x _ ih
+
+/-! ### the cutoff is the C17 cutoff of the PEP list -/
+
+theorem finites_filter_not_mbr : ∀ l : List PepVal,
+    C17.finites (l.filter (fun p => !isMbr p)) = C17.finites l := by
+  intro l
+  induction l with
+  | nil => rfl
+  | cons p t ih =>
+    rw [List.filter_cons]
+    cases p with
+    | nan =>
+      have : (!isMbr PepVal.nan) = false := rfl
+      simp only [this, Bool.false_eq_true, if_false, C17.finites]
+      exact ih
+    | inf =>
+      have : (!isMbr PepVal.inf) = true := rfl
+      simp only [this, if_true, C17.finites]
+      exact ih
+    | fin q =>
+      have : (!isMbr (PepVal.fin q)) = true := rfl
+      simp only [this, if_true, C17.finites]
+      rw [ih]
 
 end PgFdr.C12
